@@ -408,6 +408,15 @@ def run_property(prop, tier, seed, only_job=None):
     return status
 
 
+def sweep_scratch():
+    """Scratch directories of shards that died before they could remove them."""
+    import glob, shutil
+    for d in glob.glob("/tmp/ag19-*"):
+        pid = d.rsplit("-", 1)[-1]
+        if pid.isdigit() and not os.path.exists(f"/proc/{pid}"):
+            shutil.rmtree(d, ignore_errors=True)
+
+
 def replay(path):
     with open(path) as f:
         rep = json.load(f)
@@ -479,9 +488,12 @@ def main():
         worst = 0
         for p in sorted(PLAN):
             worst = max(worst, run_property(p, tier, seed))
+        sweep_scratch()
         return worst
     if cmd in PLAN:
-        return run_property(cmd, tier, seed, only)
+        rc = run_property(cmd, tier, seed, only)
+        sweep_scratch()
+        return rc
     print(f"unknown command {cmd}")
     return 2
 
